@@ -504,6 +504,9 @@ SPEC = {
     "redirect": _c("action", pos=["S"], tags=[T_COPY],
                    rfc_other_tags=[":notify", ":ret", ":bytime", ":bymode",
                                    ":bytrace", ":list"]),
+    # registered by the harness at start-up (rv/parserlab.py): a command whose class derives
+    # from the stock redirect's class and takes one more required string
+    "redirectx": _c("action", pos=["S", "S"], tags=[T_COPY]),
     "reject": _c("action", pos=["S"], ext="reject"),
     "setflag": _c("action", pos=["S", "SL"], ext="imap4flags", optfirst=True),
     "addflag": _c("action", pos=["S", "SL"], ext="imap4flags", optfirst=True),
